@@ -811,6 +811,29 @@ fn run_pri(job: &Job) {
     execute(&inst, false);
 }
 
+/// User priors containing an exact 0.0 on tight, far-apart Gaussian clusters: a query at the centre
+/// of the zero-prior class is tens of standard deviations from every class with a positive prior
+/// (log-likelihoods below -709, where exp underflows), yet the zero-prior class can never be the MAP
+/// class (its score is -inf).
+fn run_pri0(job: &Job) {
+    let k = job.u("k");
+    let z = mc::choose(k);
+    let sep = [100.0, 1000.0][mc::choose(2)];
+    let rest = 1.0 / (k - 1) as f64;
+    let priors: Vec<f64> = (0..k).map(|c| if c == z { 0.0 } else { rest }).collect();
+    let lm = label_map(k, mc::choose(2));
+    let y: Vec<f64> = (0..2 * k).map(|i| lm[i / 2]).collect();
+    let x: Vec<Vec<f64>> = (0..2 * k).map(|i| vec![sep * (i / 2) as f64 + if i % 2 == 0 { -1.0 } else { 1.0 }]).collect();
+    let mut q = x.clone();
+    for c in 0..k {
+        q.push(vec![sep * c as f64]);
+        q.push(vec![sep * c as f64 + 0.25]);
+    }
+    let inst = Inst { v: V::G, x, y, alpha: 1.0, priors: Some(priors), bin: None, queries: Rc::new(q) };
+    mc::count("zero_prior_far_cluster_instances");
+    execute(&inst, false);
+}
+
 // ------------------------------------------------------------------------------------------------
 // plan
 
@@ -1052,6 +1075,9 @@ impl Harness for C11 {
             for k in 2..=5usize {
                 j.insert(1, Job::new(format!("pri-k{}", k), json!({"kind": "pri", "k": k})));
             }
+            for k in 2..=4usize {
+                j.insert(1, Job::new(format!("pri0-k{}", k), json!({"kind": "pri0", "k": k})));
+            }
             j
         };
         Plan {
@@ -1069,6 +1095,7 @@ impl Harness for C11 {
                 ("labels_negative", 50_000),
                 ("user_priors", 100_000),
                 ("decimal_priors_instances", 1_000),
+                ("zero_prior_far_cluster_instances", 30),
                 ("decimal_priors_fp_sum_not_exactly_one", 10),
                 ("alpha_not_1", 100_000),
                 ("class_sizes_differ", 100_000),
@@ -1127,6 +1154,7 @@ impl Harness for C11 {
             "goff" => run_goff(job),
             "gtiny" => run_tiny(job),
             "pri" => run_pri(job),
+            "pri0" => run_pri0(job),
             "builders" => mc_sc::builders::run("C11"),
             other => panic!("unknown job kind {}", other),
         }
